@@ -224,9 +224,9 @@ def cases(tier):
                 for nf, fs in ((0, "."), (3, ","), (9, ".")):
                     if nf and tf in ("hh", "hh:mm", "hhmm"):
                         continue
-                    for tzf in TZ_FORMS:
-                        for sep in ("T", " "):
-                            add(df, tf, nf, fs, tzf, sep)
+                    for tzf in (None, "Z", "-hhmm", "+hh:mm"):
+                        add(df, tf, nf, fs, tzf, "T")
+                add(df, tf, 0, ".", "+hh", " ")
     for how in ("isoformat", "str", "iso8601", "rfc3339", "atom", "w3c"):
         for kind in ("utc", "fixed"):
             out.append(dict(name=f"parse({how}) {kind}", fn=inverse, params=dict(how=how, kind=kind),
